@@ -13,6 +13,7 @@ import (
 	"encoding/json"
 	"flag"
 	"fmt"
+	"github.com/PowerDNS/lightningstream/config"
 	"github.com/PowerDNS/lightningstream/syncer"
 	"github.com/PowerDNS/lightningstream/syncer/events"
 	"github.com/PowerDNS/lightningstream/syncer/hooks"
@@ -469,7 +470,8 @@ func main() {
 					continue
 				}
 				bkt := world.NewBucket()
-				a := inst.New("a", bkt, inst.Opt{Native: native})
+				// the tomb sweeper is enabled (retention 1 day): markers of any age are still part of the image
+				a := inst.New("a", bkt, inst.Opt{Native: native, Sweeper: &config.Sweeper{Enabled: true, RetentionDays: 1, Interval: time.Hour, FirstInterval: time.Hour, LockDuration: time.Second, ReleaseDuration: time.Second}})
 				a.AppTxn(func(txn *lmdb.Txn) error {
 					dbi, err := txn.OpenDBI("d", lmdb.Create)
 					if err != nil {
@@ -523,6 +525,19 @@ func main() {
 						inst.PlainPut(txn, "d", 0, []byte("late"), []byte("2nd"))
 						if len(sub) > 0 {
 							inst.PlainDel(txn, "d", 0, alpha[sub[0]].key, nil)
+						}
+					}
+					if variant&1 != 0 {
+						// the application drops a DBI and creates it again with other flags
+						old, err := txn.OpenDBI("empty", 0)
+						must(err)
+						must(txn.Drop(old, true))
+						nd, err := txn.OpenDBI("empty", lmdb.Create)
+						must(err)
+						if native {
+							must(txn.Put(nd, []byte("again"), world.MakeHdr(clock, 1, 0, 0, []byte("v")), 0))
+						} else {
+							must(txn.Put(nd, []byte("again"), []byte("v"), 0))
 						}
 					}
 					return nil
